@@ -193,3 +193,41 @@ func Harness_C17_ExportThenInit() {
 	p2, f2 := k2.GetPendingOwner(e2.Ctx)
 	verifrt.Assert("C17/export-import/pending-owner-slot", verifrt.All(f1 == f2, verifrt.Implies(f1, p1 == p2)))
 }
+
+func init() {
+	verifrt.Register("Harness_C02_ExportListsExactlyTheUsedPairs", Harness_C02_ExportListsExactlyTheUsedPairs)
+}
+
+// C02 (genesis side): the used pairs handed to a new chain by export are exactly the stored ones, so a
+// pair is reported as used after an upgrade iff it was used before it.
+func Harness_C02_ExportListsExactlyTheUsedPairs() {
+	env := verifrt.NewEnv()
+	k := newKeeper(env)
+	ctx := env.Ctx
+	k.SetOwner(ctx, "o")
+	k.SetAttesterManager(ctx, "a")
+	k.SetPauser(ctx, "p")
+	k.SetTokenController(ctx, "t")
+	d0, n0 := verifrt.NondetU32("ud0"), verifrt.NondetU64("un0")
+	d1, n1 := verifrt.NondetU32("ud1"), verifrt.NondetU64("un1")
+	verifrt.Assume(verifrt.Any(d0 != d1, n0 != n1))
+	k.SetUsedNonce(ctx, types.Nonce{SourceDomain: d0, Nonce: n0})
+	k.SetUsedNonce(ctx, types.Nonce{SourceDomain: d1, Nonce: n1})
+	g := ExportGenesis(ctx, k)
+	verifrt.Cover("exported")
+	ok := len(g.UsedNoncesList) == 2
+	has0, has1 := false, false
+	for _, x := range g.UsedNoncesList {
+		has0 = verifrt.Any(has0, verifrt.All(x.SourceDomain == d0, x.Nonce == n0))
+		has1 = verifrt.Any(has1, verifrt.All(x.SourceDomain == d1, x.Nonce == n1))
+	}
+	verifrt.Assert("C02/export/lists-exactly-the-used-pairs", verifrt.All(ok, has0, has1))
+	// and import marks exactly those
+	e2 := verifrt.NewEnv()
+	k2 := newKeeper(e2)
+	InitGenesis(e2.Ctx, k2, *g)
+	d2, n2 := verifrt.NondetU32("other_domain"), verifrt.NondetU64("other_nonce")
+	after := k2.GetUsedNonce(e2.Ctx, types.Nonce{SourceDomain: d2, Nonce: n2})
+	listed := verifrt.Any(verifrt.All(d2 == d0, n2 == n0), verifrt.All(d2 == d1, n2 == n1))
+	verifrt.Assert("C02/import/used-iff-listed", after == listed)
+}
